@@ -2,6 +2,7 @@ package main
 
 import (
 	"encoding/hex"
+	"os"
 	"reflect"
 	"sort"
 	"sync"
@@ -22,11 +23,19 @@ var (
 
 var _ = layers.LayerTypeEthernet
 
+// repoDir is the tree under test: /repo, or a snapshot of it for background sweeps (VERIF_REPO).
+func repoDir() string {
+	if d := os.Getenv("VERIF_REPO"); d != "" {
+		return d
+	}
+	return "/repo"
+}
+
 // getCorpus builds the corpus once per child and discovers the DecodingLayer implementations by reflection over the
 // layer objects that decoding the seeds produces.
 func getCorpus() *corpus.Corpus {
 	corpOnce.Do(func() {
-		corp = corpus.Build("/repo")
+		corp = corpus.Build(repoDir())
 		dlTypes = map[gopacket.LayerType]reflect.Type{}
 		dlIface := reflect.TypeOf((*gopacket.DecodingLayer)(nil)).Elem()
 		seen := func(l gopacket.Layer) {
